@@ -13,7 +13,55 @@ import (
 	"os"
 
 	"github.com/gopherjs/gopherjs/internal/sourcemapx"
+	"github.com/neelance/sourcemap"
 )
+
+// smapping is one sourcemap.Mapping in JSON form (strings as hex so that arbitrary bytes survive)
+type smapping struct {
+	GL   int    `json:"gl"`
+	GC   int    `json:"gc"`
+	File string `json:"file"`
+	OL   int    `json:"ol"`
+	OC   int    `json:"oc"`
+	Name string `json:"name"`
+}
+
+func toS(ms []*sourcemap.Mapping) []smapping {
+	out := make([]smapping, 0, len(ms))
+	for _, m := range ms {
+		out = append(out, smapping{m.GeneratedLine, m.GeneratedColumn, hex.EncodeToString([]byte(m.OriginalFile)), m.OriginalLine, m.OriginalColumn, hex.EncodeToString([]byte(m.OriginalName))})
+	}
+	return out
+}
+
+// decodeReal runs the REAL decoder (ReadFrom + DecodedMappings) on an encoded map
+func decodeReal(js []byte) ([]smapping, string) {
+	sm, err := sourcemap.ReadFrom(bytes.NewReader(js))
+	if err != nil {
+		return nil, err.Error()
+	}
+	return toS(sm.DecodedMappings()), ""
+}
+
+// runCodec drives the REAL encoder: AddMapping for every given mapping, WriteTo (= sort + EncodeMappings),
+// then reports the slice as the sort left it and what the real decoder reads back from the written JSON.
+func runCodec(in []smapping) (res result) {
+	m := &sourcemap.Map{File: "out.js"}
+	for _, x := range in {
+		f, _ := hex.DecodeString(x.File)
+		n, _ := hex.DecodeString(x.Name)
+		m.AddMapping(&sourcemap.Mapping{GeneratedLine: x.GL, GeneratedColumn: x.GC, OriginalFile: string(f), OriginalLine: x.OL, OriginalColumn: x.OC, OriginalName: string(n)})
+	}
+	sm := &bytes.Buffer{}
+	if err := m.WriteTo(sm); err != nil {
+		res.Panic = "WriteTo: " + err.Error()
+		return
+	}
+	res.SrcMap = sm.String()
+	res.Sorted = toS(m.DecodedMappings())
+	res.Decoded, res.DecErr = decodeReal(sm.Bytes())
+	return
+}
 
 type item struct {
 	Code  *string  `json:"code,omitempty"`  // hex
@@ -27,6 +75,8 @@ type tcase struct {
 	Chunks   []int  `json:"chunks"`
 	Callback bool   `json:"callback"`
 	Mapped   bool   `json:"mapped"` // use EnableMapping (the default callbacks) and return the encoded source map
+	Codec    []smapping `json:"codec,omitempty"` // codec mode: feed these mappings to the real sourcemap.Map
+	DecodeJS string     `json:"decode_js,omitempty"` // decode mode: run the real decoder on this encoded map (JSON text)
 }
 
 type mapping struct {
@@ -45,9 +95,19 @@ type result struct {
 	N        []int     `json:"n"`
 	EncErr   string    `json:"enc_err"`
 	SrcMap   string    `json:"srcmap"`
+	Sorted   []smapping `json:"sorted,omitempty"`
+	Decoded  []smapping `json:"decoded,omitempty"`
+	DecErr   string     `json:"dec_err,omitempty"`
 }
 
 func run(tc tcase) (res result) {
+	if tc.Codec != nil {
+		return runCodec(tc.Codec)
+	}
+	if tc.DecodeJS != "" {
+		res.Decoded, res.DecErr = decodeReal([]byte(tc.DecodeJS))
+		return
+	}
 	res.Payloads = []string{}
 	res.Maps = []mapping{}
 	res.N = []int{}
@@ -139,6 +199,7 @@ func run(tc tcase) (res result) {
 			res.Panic = "WriteMappingTo: " + err.Error()
 		}
 		res.SrcMap = sm.String()
+		res.Decoded, res.DecErr = decodeReal(sm.Bytes())
 	}
 	return
 }
